@@ -21,16 +21,17 @@ LEVEL = "exploration"
 TECHNIQUE = "exhaustive bodies x read chunkings x network segmentations, end to end over in-memory transports"
 RULE = ("bodies = every sequence of <= K lines over {'.', '..', '.a', 'a', '', 'a.b', 'h:v', 'a.'} (LF-terminated, no CR; "
         "dot lines first, last, adjacent and alone; a header-looking first line; an empty first line) x every chunking of the "
-        "client's file reads (all compositions of the body when it is <= 8 bytes, else whole + uniform sizes 1,2,3,5,7 + every "
+        "client's file reads (all compositions of the body when it is <= 8 (thorough 10) bytes, else whole + uniform sizes 1,2,3,5,7 + every "
         "chunking with <= 2 cuts) driven through a real SMTPClient/FileSender talking to a real SMTP (and ESMTP) server; for every "
         "distinct DATA-phase byte stream the client produced, the stream is additionally delivered whole, byte-at-a-time "
-        "(commands and replies byte-at-a-time too) and with every 1-cut (thorough: every <= 2-cut). "
+        "(commands and replies byte-at-a-time too) and with every 1-cut (thorough: every <= 2-cut for streams <= 16 bytes). "
         "non-trivial = distinct (body, chunking) where a chunk starts with '.' right after a line end or the body starts with '.', "
         "and distinct (DATA stream, segmentation) pairs. For a body whose real client stream is wrong (known findings) the "
         "server is additionally fed the reference dot-stuffed stream in every segmentation so that SMTP.dataLineReceived "
         "stays covered for dot-leading lines")
 BOUNDS = {"quick": "K=3 (585 bodies), SMTP server; ESMTP server for K<=2",
-          "thorough": "K=4 over the first 6 lines + K=3 over 8 (1845 bodies), both servers, <= 2 network cuts"}
+          "thorough": "K=4 over the first 6 lines + K=3 over 8 (1881 bodies), all read chunkings for bodies <= 10 bytes, ESMTP server too for K<=3, "
+                      "<= 2 network cuts for DATA streams <= 16 bytes (1 cut beyond)"}
 ASSUMPTIONS = [
     "one recipient, one message per connection; delivery.receivedHeader returns a fixed marker line which is expected first",
     "documented header handling = a blank line is inserted before the first body line when that line is non-empty and has no ':'; "
@@ -438,11 +439,11 @@ def run_shard(shard, tier, seed):
         lines = [LINES[i] for i in idx]
         body = b"".join(ln + b"\n" for ln in lines)
         kinds = ["SMTP"]
-        if tier != "quick" or len(lines) <= 2:
+        if len(lines) <= (2 if tier == "quick" else 3):
             kinds.append("ESMTP")
         for server_kind in kinds:
             streams = {}
-            for chunks in chunkings(len(body), 8 if tier == "quick" else 12):
+            for chunks in chunkings(len(body), 8 if tier == "quick" else 10):
                 st.evaluations += 1
                 bad, obs = evaluate(server_kind, lines, chunks, None, False)
                 i, dotstart = 0, body[:1] == b"."
@@ -474,7 +475,7 @@ def run_shard(shard, tier, seed):
                 todo.append((ref_stream(lines), (len(body),) if body else (), not bad, True))
                 st.outcome("server-fed-reference-stream")
             for stream, chunks, whole_ok, use_ref in todo:
-                variants = [(None, True)] + [(seg, False) for seg in stream_segs(len(stream), ncuts)]
+                variants = [(None, True)] + [(seg, False) for seg in stream_segs(len(stream), ncuts if len(stream) <= 16 else 1)]
                 for seg, bw in variants:
                     st.evaluations += 1
                     bad, obs = evaluate(server_kind, lines, chunks, seg, bw, whole_ok, use_ref)
